@@ -282,3 +282,28 @@ def rt_graph(i: int, thr: int, proto: int) -> bool:
     finally:
         if ch_env.MODE == 'real':
             ch_env.cleanup_real(root)
+
+
+STR_POOL = ['\ufeff', '\ufeffabc', 'a\ufeff', '\ufeff\ufeff', '\ufffe', '\r', '\r\n', '\n\r', '\x00', '\x1a', '\x85', '\u2028\u2029', '\ud7ff\ue000', '\U0010ffff', '\xff\xfe',
+            ' ', '\t', 'caf\xe9', 'e\u0301', '\u00e9', 'A' * 5]
+
+
+def rt_str_pool(i: int, thr: int, pad: int) -> bool:
+    """
+    pre: 0 <= i < 21 and 0 <= thr <= 8 and 0 <= pad <= 3
+    post: _
+    """
+    # strings that decoders like to "help" with (byte order marks, newline flavours, NUL, non-characters, combining forms), alone and
+    # padded, on both sides of the threshold: identical code points back, or rejected
+    v = pick(STR_POOL, i) + 'x' * pad
+    core, fs, root = ch_env.setup(0)
+    try:
+        d = core.Disk(root, thr, 4)
+        try:
+            size, mode, fn, out = _roundtrip(core, d, v)
+        except UnicodeEncodeError:
+            return True
+        return type(out) is str and out == v and len(out) == len(v) and [ord(c) for c in out] == [ord(c) for c in v]
+    finally:
+        if ch_env.MODE == 'real':
+            ch_env.cleanup_real(root)
